@@ -20,6 +20,7 @@ RULE = ('R-produced cases (mandatory edge shapes + random templates, editions 2-
         'compressed or not); the values R expects are fed to the real Encoder; non-trivial when the '
         'encoder returned and the template has an operator, replication, compression or a missing '
         'value; distinct by SHA-1 of R\'s message bytes; strings also given without trailing blanks down to \'\'; a second long-lived encoder with template compilation on for scoped templates; pairs of messages with one descriptor list under two table versions / local tables')
+RULE += '; added with rounds 10-12: re-entrant encodes (a value row computed when first read runs another encode on the same Encoder); the values in other forms (parsed lists, tuples, 5 for 5.0, indented / compact JSON text, UTF-8 octets with and without BOM); twins'
 ASSUMPTIONS = ['R (mon/refbufr) is a correct reading of FM-94 for the shapes of DESIGN appendix A',
                'minimal difference width is not demanded (the statement does not)',
                'numeric fields wider than 48 bits with positive scale are skipped (float input cannot carry them)']
